@@ -64,6 +64,7 @@ func (sizesEngine) Exec(spec *Spec) *Result {
 	res := &Result{}
 	size := spec.Disk
 	d := simdisk.New(size)
+	d.NoTrace = true // restarts use the current image; no trace needed
 	var viol *Violation
 	fail := func(sig, detail string) {
 		if viol == nil {
